@@ -163,13 +163,19 @@ ValueLaws(S, e, E, k, val2, obs) ==
         ELSE IF \E h \in DOMAIN obs : obs[h].len # Len(val2[h]) \/ (obs[h].len >= 0 /\ obs[h].d # val2[h])
              THEN {<<"C01", "value_eq">>} ELSE {})
 
+\* Same address?  Under adjacent placement a one-past-the-end pointer of block A is also the
+\* start of block B; the harness logs the second reading as a2/off2.
+SameAddr(p, q) == \/ (p.a = q.a /\ p.off = q.off)
+                  \/ (q.a2 # 0 /\ q.a2 = p.a /\ q.off2 = p.off)
+                  \/ (p.a2 # 0 /\ p.a2 = q.a /\ p.off2 = q.off)
+
 \* handles the call may legitimately change
 Touched(e) == {e.h, Oth(e)} \cup RangeOf(e.out.new)
 
 OthersUnchanged(S, e, obs) ==
   LET bad == {h \in (DOMAIN obs \cap DOMAIN S.view) \ Touched(e) :
                  LET p == S.view[h] q == obs[h] IN
-                 p.a # q.a \/ p.off # q.off \/ p.len # q.len \/ p.cap # q.cap \/ p.d # q.d}
+                 ~SameAddr(p, q) \/ p.len # q.len \/ p.cap # q.cap \/ p.d # q.d}
   IN (IF \E h \in bad : obs[h].ty = "M" THEN {<<"C04", "others_unchanged">>} ELSE {})
      \cup (IF bad # {} THEN {<<"C01", "others_unchanged">>} ELSE {})
 
@@ -219,7 +225,7 @@ ReserveLaws(S, e, k, obs) ==
     [] e.op = "m_try_reclaim" ->
          IF Ret(e) = 1
          THEN (IF q.cap - q.len >= X(e) /\ AllocsOf(e) = {} THEN {} ELSE {<<"C04", "reclaim_post">>})
-         ELSE (IF p.a = q.a /\ p.off = q.off /\ p.len = q.len /\ p.cap = q.cap /\ AllocsOf(e) = {}
+         ELSE (IF SameAddr(p, q) /\ p.len = q.len /\ p.cap = q.cap /\ AllocsOf(e) = {}
                THEN {} ELSE {<<"C04", "reclaim_post">>})
     [] e.op \in {"m_fill_spare"} ->
          IF Ret(e) = p.cap - p.len THEN {} ELSE {<<"C04", "spare_exact">>}
@@ -227,7 +233,7 @@ ReserveLaws(S, e, k, obs) ==
 
 \* ---- C03: release exactly once, after the last handle ------------------
 ReleaseLaws(e, led2, obs) ==
-  LET pointed == {obs[h].a : h \in DOMAIN obs}
+  LET pointed == {obs[h].a : h \in DOMAIN obs} \cup {obs[h].a2 : h \in DOMAIN obs}
       leaked == {id \in DOMAIN led2 : led2[id].live /\ led2[id].org = 1 /\ led2[id].align = 1 /\ id \notin pointed}
       early == {m \in FreesOf(e) : \E h \in DOMAIN obs : obs[h].a = m.id /\ obs[h].len > 0}
   IN (IF leaked # {} THEN {<<"C03", "freed_at_last">>} ELSE {})
@@ -245,7 +251,8 @@ EndLaws(e) ==
   IF e.live # <<>> THEN {<<"C03", "ledger_empty_at_end">>, <<"C13", "ledger_empty_at_end">>} ELSE {}
 
 \* ---- C07: zero copy ----------------------------------------------------
-At(o, a, off) == o.a = a /\ o.off = off
+\* under adjacent placement a one-past-the-end pointer has two readings (a2/off2)
+At(o, a, off) == (o.a = a /\ o.off = off) \/ (o.a2 # 0 /\ o.a2 = a /\ o.off2 = off)
 
 ZeroCopy(S, e, k, obs) ==
   IF k # "ok" \/ (e.h # 0 /\ e.h \notin DOMAIN S.view) THEN {}
@@ -295,11 +302,12 @@ ZeroCopy(S, e, k, obs) ==
 \* ---- C08: uniqueness ---------------------------------------------------
 UniqueLaws(S, e, k, obs, led2) ==
   LET bs == {h \in DOMAIN obs : obs[h].ty = "B"}
-      others(h) == {g \in DOMAIN obs : g # h /\ obs[g].a = obs[h].a}
+      others(h) == {g \in DOMAIN obs : g # h /\ (obs[g].a = obs[h].a \/ obs[g].a2 = obs[h].a)}
       \* a = -1: the harness' static arena; -99..-2: owner memory.  (-100 = "no storage":
       \* a dangling zero-capacity buffer is neither, the property is silent about it)
       f1 == \E h \in bs : obs[h].u /\ obs[h].a <= -1 /\ obs[h].a > -100
-      f2 == \E h \in bs : obs[h].u /\ obs[h].a > 0 /\ \E g \in others(h) : obs[g].len > 0
+      \* a non-empty handle is located by an interior address, so only its primary reading counts
+      f2 == \E h \in bs : obs[h].u /\ obs[h].a > 0 /\ (obs[h].len > 0 \/ obs[h].a2 = 0) /\ \E g \in DOMAIN obs : g # h /\ obs[g].a = obs[h].a /\ obs[g].len > 0
       f3 == \E h \in bs : ~obs[h].u /\ obs[h].len > 0 /\ obs[h].a > 0 /\ obs[h].a \in DOMAIN led2
                            /\ led2[obs[h].a].live /\ others(h) = {}
   IN (IF f1 THEN {<<"C08", "uniq_false_static_owner">>} ELSE {})
@@ -311,7 +319,7 @@ UniqueLaws(S, e, k, obs, led2) ==
               /\ LET p == S.view[e.h] IN
                    /\ p.len = 0 /\ p.a > 0 /\ p.a \in DOMAIN S.led /\ S.led[p.a].live
                    /\ X(e) >= 0 /\ X(e) <= S.led[p.a].size
-                   /\ ~\E g \in DOMAIN S.view : g # e.h /\ S.view[g].a = p.a
+                   /\ ~\E g \in DOMAIN S.view : g # e.h /\ (S.view[g].a = p.a \/ S.view[g].a2 = p.a)
                    /\ (BufAllocsOf(e) # {} \/ (e.op = "m_try_reclaim" /\ Ret(e) # 1))
            THEN {<<"C08", "sole_empty_reclaims">>, <<"C18", "sole_empty_reclaims">>} ELSE {})
 
@@ -322,7 +330,7 @@ ContractLaws(S, e, E, k, obs) ==
   \cup (IF k = "panic" /\ (DOMAIN obs # DOMAIN S.view \/
              \E h \in DOMAIN obs \cap DOMAIN S.view :
                 LET p == S.view[h] q == obs[h] IN
-                p.a # q.a \/ p.off # q.off \/ p.len # q.len \/ p.cap # q.cap \/ p.d # q.d)
+                ~SameAddr(p, q) \/ p.len # q.len \/ p.cap # q.cap \/ p.d # q.d)
         THEN {<<"C13", "panic_preserves">>} ELSE {})
 
 (***************************************************************************)
